@@ -38,7 +38,7 @@ EXH_CFG = {
     "quick": {
         "DDM": [(1, 2, 3), (3, 1.1, 1.5), (2, 1.0, 2.0), (4, 0.5, 1.0), (3, 3.0, 2.0)],
         "EDDM": [(1, 0.95, 0.9), (2, 1.0, 0.8), (3, 0.9, 0.5), (2, 0.75, 0.75)],
-        "STEPD": [(1, 0.2, 0.05), (2, 0.3, 0.1), (3, 0.05, 0.003), (2, 0.5, 0.5), (2, 0.95, 0.9)],
+        "STEPD": [(1, 0.2, 0.05), (2, 0.3, 0.1), (3, 0.05, 0.003), (2, 0.5, 0.5), (2, 0.95, 0.9), (1, 0.6, 0.3), (2, 0.58, 0.53)],
     },
 }
 EXH_CFG["thorough"] = {
@@ -92,7 +92,7 @@ def rand_cfg(det, rng):
             wt, dt = dt - 0.05, wt
         return (nt, wt, dt)
     w = int(rng.choice([1, 2, 3, 5, 10, 30]))
-    aw = float(rng.choice([0.5, 0.3, 0.1, 0.05]))
+    aw = float(rng.choice([0.7, 0.6, 0.5, 0.3, 0.1, 0.05]))
     ad = aw * float(rng.choice([1.0, 0.5, 0.1, 0.06]))
     if rng.random() < 0.15:
         aw, ad = ad, min(0.9, aw * 1.5)
